@@ -225,7 +225,7 @@ class BaseEphysReader(object):
                 cols = item[1]
                 # NOTE the self = here.
                 self = self._append_op('cols', cols)
-                if item[0] == slice(None, None, None):
+                if isinstance(item[0], slice) and item[0] == slice(None, None, None):
                     # traces[:, cols] should return a cloned EphysReader instance.
                     return self
                 item = item[0]
